@@ -173,3 +173,14 @@ simple("encode_produce_request",
        raises=ENC_ERR, bounded=dict(n=1500), search={"api_version": "choice:[0,1,2,3]", "payloads": "produce_payloads", "acks": "choice:[0,1,-1]"},
        notes="nested universally quantified precondition (every message of every payload matches the request's message format) is outside "
              "the quantifier-free contract language; checked as a bounded stand-in")
+
+contract(K + "encode_sync_group_member_assignment")(type('_', (), dict(
+    sig="(version: int, assignments: Dict[str, List[int]], user_data: Optional[bytes]) -> bytes", props=["C04", "C15"],
+    bounded=dict(n=1500), search={"version": "choice:[0, 0, 0, 1, -1, 40000]"},
+    ensures={"func[C04,C15]": "implies(sgma_encodable(version, assignments, user_data), result == sgma_encoded(version, assignments, user_data))",
+             # C15, last sentence: a member decodes from the encoded assignment exactly the partitions assigned to it
+             "round-trip[C15]": "implies(sgma_encodable(version, assignments, user_data) and version == 0, "
+                                "sgma_roundtrip(result, version, assignments, user_data))"},
+    raises={k: "not sgma_encodable(version, assignments, user_data)" for k in ("struct.error", "UnicodeEncodeError", "TypeError", "AttributeError")},
+    notes="dynamic struct format ('>i%si' % n with *partitions): bounded comparison with an encoder written from the protocol "
+          "guide, and decode(encode(x)) == x through afkak's own decoder")))
